@@ -113,6 +113,13 @@ class Prop(core.Prop):
                 for nup in (1, 2):
                     for pat in ('ramp', 'wave', 'steps', 'fine'):
                         yield dict(group, nsfc=nsfc, nup=nup, pattern=pat)
+            # levels strictly between 0 and 0.1 (sigma 0.05, 0.025: the field starts with the decimal point);
+            # fields that are smooth at the first time and rough later (the exponent differs between time records)
+            yield dict(group, nsfc=1, nup=1, pattern='ramp', lowlevels=True)
+            yield dict(group, nsfc=2, nup=2, pattern='wave', lowlevels=True)
+            for nsfc in (1, 2):
+                yield dict(group, nsfc=nsfc, nup=1, pattern='rough')
+                yield dict(group, nsfc=nsfc, nup=2, pattern='rough-decay')
             if group['nlev'] == 2:
                 # the second upper level carries a variable the first one lacks
                 yield dict(group, nsfc=1, nup=2, pattern='ramp', levvars=True)
@@ -195,8 +202,11 @@ class Prop(core.Prop):
         nx, ny = case.get('grid', (20, 16))
         nt, nlev, nsfc, nup, pat = case['nt'], case['nlev'], case['nsfc'], case['nup'], case['pattern']
 
-        def field(seed):
+        def field(seed, ti=0):
             j, i = np.mgrid[0:ny, 0:nx]
+            if pat in ('rough', 'rough-decay'):
+                amp = 0.01 * 40. ** (ti if pat == 'rough' else 2 - ti)
+                return (280. + seed + amp * ((7 * i + 3 * j) % 5)).astype('f')
             if pat == 'ramp':
                 return (seed + 0.5 * i + 2. * j).astype('f')
             if pat == 'wave':
@@ -209,9 +219,11 @@ class Prop(core.Prop):
         sfcn = ['PRSS', 'T02M'][:nsfc]
         upn = ['TEMP', 'UWND'][:nup]
         levels = [0.99825, 20.125][:nlev]      # all six characters of the level field are significant
+        if case.get('lowlevels'):
+            levels = [0.05, 0.025][:nlev]
         rec = dict(nx=nx, ny=ny, times=times, sfclevel=1.0, levels=levels,
-                   sfc={n: [field(1000. * (k + 1) + ti) for ti in range(nt)] for k, n in enumerate(sfcn)},
-                   upper={n: [[field(100. * (k + 1) + 10 * li + ti) for li in range(nlev)] for ti in range(nt)]
+                   sfc={n: [field(1000. * (k + 1) + ti, ti) for ti in range(nt)] for k, n in enumerate(sfcn)},
+                   upper={n: [[field(100. * (k + 1) + 10 * li + ti, ti) for li in range(nlev)] for ti in range(nt)]
                           for k, n in enumerate(upn)})
         if case.get('levvars'):
             rec['level_names'] = [[upn[0]], list(upn)]
@@ -221,7 +233,8 @@ class Prop(core.Prop):
             fh.write(raw)
         st = [h64(raw)]
         sig = ('arlpackedbit',)
-        scope = dict(nt=nt, nlev=nlev, nsfc=nsfc, nup=nup, pattern=pat, grid='%dx%d' % (nx, ny))
+        scope = dict(nt=nt, nlev=nlev, nsfc=nsfc, nup=nup, pattern=pat, grid='%dx%d' % (nx, ny),
+                     lowlevels=bool(case.get('lowlevels')))
         vs = []
         try:
             f = P.pncopen(path, format='arlpackedbit')
